@@ -73,6 +73,16 @@ Theorem C17_filter_spec :
 Proof. exact filter_spec. Qed.
 Print Assumptions C17_filter_spec.
 
+(* (5b) ... and every comma separated attribute:regex entry of the --event_filter string IS one of these pairs, also
+   when several entries name the same attribute.  Until /repo fix "C17b" the filters were kept in a dict keyed by
+   attribute: 'name:alpha,name:beta' silently became 'name:beta' (corpus/C17/09_repeated_key: expectation corrected). *)
+Theorem C17_every_entry_counts :
+  forall (s f k r : string),
+    all_space s = false -> In f (split_on ","%char s) -> split_on ":"%char f = [k; r] ->
+    In (k, r) (extract_filters s).
+Proof. exact extract_every_entry. Qed.
+Print Assumptions C17_every_entry_counts.
+
 (* (6) a slice the limiter lets through is dropped iff a filter matches its normalised form (attr
    merged into args, hex counters decimal, Receive/RDMA unified, Bytes renamed); every other slice
    is exported ([finish] only adds args.jobname). *)
